@@ -366,7 +366,11 @@ def t_localtime(it, t=None):
         it.ctx.ghost['tz_quarters'] = z
     elif callable(z):
         z = z(it, t)
-    return broken_down(it, t + 900 * z)
+    st = broken_down(it, t + 900 * z)
+    # fixed zones only: the contracts name every zone 'PVC' (contracts/utils.tz_string), no daylight saving
+    st.vals['tm_zone'] = it.ctx.ghost.get('tz_name', 'PVC')
+    st.vals['tm_gmtoff'] = 900 * z
+    return st
 
 
 def t_time(it):
@@ -1427,6 +1431,13 @@ def b_tuple(it, x=()):
 
 
 def b_open(it, *a, **k):
+    # a contract may register host files: ghost['host_files'][name] = factory() -> a fresh file model positioned at 0
+    files = it.ctx.ghost.get('host_files') or {}
+    if a and isinstance(a[0], str) and a[0] in files:
+        mode = a[1] if len(a) > 1 else k.get('mode', 'r')
+        if 'b' not in mode or any(ch in mode for ch in 'wa+x'):
+            raise Unsupported('open() of a registered host file in mode %r' % (mode,))
+        return files[a[0]]()
     raise Unsupported('open() of a host file')
 
 
@@ -1707,7 +1718,8 @@ def install(loader):
                  ('AssertionError', 'Exception'), ('RuntimeError', 'Exception'), ('NotImplementedError', 'RuntimeError'),
                  ('OSError', 'Exception'), ('StopIteration', 'Exception'), ('NameError', 'Exception'),
                  ('struct.error', 'Exception'), ('io.UnsupportedOperation', 'OSError'), ('ImportError', 'Exception'),
-                 ('MemoryError', 'Exception'), ('RecursionError', 'RuntimeError'), ('EOFError', 'Exception')]:
+                 ('MemoryError', 'Exception'), ('RecursionError', 'RuntimeError'), ('EOFError', 'Exception'),
+                 ('FragmentReturn', 'BaseException')]:
         mk(n, b)
     ex['IOError'] = ex['OSError']
     ex['EnvironmentError'] = ex['OSError']
